@@ -10,7 +10,7 @@ import re._parser as sre_parse
 import z3
 
 from . import core
-from .core import Unsupported, mk, tobool
+from .core import Unsupported, mk, tobool, zand, zor, znot
 from .symstr import SymStr, chars_of, ceq, simp
 
 _real_compile = re.compile
@@ -31,17 +31,17 @@ def class_pred(items, c, dom):
             if av is sc.CATEGORY_SPACE:
                 alts.append(tobool(dom.is_space(c)))
             elif av is sc.CATEGORY_NOT_SPACE:
-                alts.append(z3.Not(tobool(dom.is_space(c))))
+                alts.append(znot(tobool(dom.is_space(c))))
             elif av is sc.CATEGORY_DIGIT:
                 alts.append(tobool(dom.is_digit(c)))
             elif av is sc.CATEGORY_NOT_DIGIT:
-                alts.append(z3.Not(tobool(dom.is_digit(c))))
+                alts.append(znot(tobool(dom.is_digit(c))))
             else:
                 raise Unsupported('regex category %s' % av)
         else:
             raise Unsupported('regex class item %s' % op)
-    p = z3.Or(alts) if alts else z3.BoolVal(False)
-    return z3.Not(p) if neg else p
+    p = zor(alts)
+    return znot(p) if neg else p
 
 
 class SymMatch:
@@ -118,11 +118,11 @@ class SymRx:
                     return m(nodes, i + 1, p + 1, groups, k)
                 return None
             if op is sc.NOT_LITERAL:
-                if p < n and test(z3.Not(ceq(cs[p], av))):
+                if p < n and test(znot(ceq(cs[p], av))):
                     return m(nodes, i + 1, p + 1, groups, k)
                 return None
             if op is sc.ANY:
-                if p < n and test(z3.Not(ceq(cs[p], 10))):
+                if p < n and test(znot(ceq(cs[p], 10))):
                     return m(nodes, i + 1, p + 1, groups, k)
                 return None
             if op is sc.IN:
